@@ -39,13 +39,13 @@ Definition sb_wf (s : sb_state) : Prop :=
   (exists h, sb_hash s = Some h /\ length h = 32%nat) /\
   - 2 ^ 63 <= sb_round s < 2 ^ 63 /\ 0 <= sb_balance s < 2 ^ 64 /\ - 2 ^ 63 <= sb_nonce s < 2 ^ 63.
 
-(* with the guard (a 32-byte transaction hash) Decode inverts Encode, also with trailing bytes *)
-Lemma sb_decode_encode s extra : sb_wf s ->
-  exists b, sb_encode s = SbBytes b /\ sb_decode (b ++ extra) = Some s.
+(* with the guard (a 32-byte transaction hash) the inner decoder inverts Encode, also with trailing bytes *)
+Lemma sb_decode_lax_encode s extra : sb_wf s ->
+  exists b, sb_encode s = SbBytes b /\ sb_decode_lax (b ++ extra) = Some s.
 Proof.
   intros ((h & Hh & Hl) & Hr & Hb & Hn). destruct s as [hash r bal n]. cbn [sb_hash sb_round sb_balance sb_nonce] in *.
   subst hash. unfold sb_encode. cbn [sb_hash sb_round sb_balance sb_nonce]. eexists. split; [reflexivity|].
-  unfold sb_decode. rewrite <- !app_assoc.
+  unfold sb_decode_lax. rewrite <- !app_assoc.
   destruct (Nat.ltb_spec (length (h ++ sb_le 8 r ++ sb_le 8 bal ++ sb_le 8 n ++ extra)) 32) as [Hlt|_];
     [rewrite app_length in Hlt; lia|].
   rewrite sb_firstn_app, sb_skipn_app by (symmetry; exact Hl).
@@ -60,10 +60,29 @@ Proof.
   rewrite sb_i64 by exact Hr. rewrite sb_u64 by exact Hb. rewrite sb_i64 by exact Hn. reflexivity.
 Qed.
 
+(* the bytes of a guarded state are exactly 56 *)
+Lemma sb_encode_length s b : sb_wf s -> sb_encode s = SbBytes b -> length b = 56%nat.
+Proof.
+  intros ((h & Hh & Hl) & _) E. unfold sb_encode in E. rewrite Hh in E. injection E as <-.
+  rewrite !app_length, Hl. reflexivity.
+Qed.
+
+(* Decode (exact size) inverts Encode on guarded states *)
+Lemma sb_decode_encode s : sb_wf s ->
+  exists b, sb_encode s = SbBytes b /\ sb_decode b = Some s.
+Proof.
+  intros H. destruct (sb_decode_lax_encode s [] H) as (b & E & D). exists b. split; [exact E|].
+  rewrite app_nil_r in D. unfold sb_decode. rewrite (sb_encode_length s b H E). cbn. exact D.
+Qed.
+
+(* and nothing of another size is a client state (fix 8b489e6: a contract node read at an account path is refused) *)
+Lemma sb_decode_exact_size b : length b <> 56%nat -> sb_decode b = None.
+Proof. intros H. unfold sb_decode. destruct (Nat.eqb_spec (length b) 56); [contradiction|reflexivity]. Qed.
+
 (* Encode is injective on guarded states: equal leaves have equal bytes only if equal *)
 Lemma sb_encode_inj s1 s2 : sb_wf s1 -> sb_wf s2 -> sb_encode s1 = sb_encode s2 -> s1 = s2.
 Proof.
-  intros H1 H2 E. destruct (sb_decode_encode s1 [] H1) as (b1 & E1 & D1).
-  destruct (sb_decode_encode s2 [] H2) as (b2 & E2 & D2).
+  intros H1 H2 E. destruct (sb_decode_encode s1 H1) as (b1 & E1 & D1).
+  destruct (sb_decode_encode s2 H2) as (b2 & E2 & D2).
   rewrite E, E2 in E1. inversion E1. subst. rewrite D1 in D2. inversion D2. reflexivity.
 Qed.
